@@ -158,6 +158,26 @@ def run_case(ctx, i, rng):
     Q = {"instances": sdn.get_hinstances, "ports": sdn.get_hports, "pins": sdn.get_hpins, "cables": sdn.get_hcables,
          "wires": sdn.get_hwires}
     held = []
+    pre_held = []
+    if i % 3 == 0 and top is not None and top.reference is not None:
+        # references built from explicit paths BEFORE any enumeration and kept alive: the enumerations below must hand back these very
+        # objects, hanging off the canonical references of their prefixes (own generator: no draw of rng moves)
+        import random as _random
+        pr_ = _random.Random(i * 7919 + 13)
+        for _ in range(4):
+            path_ = [top]
+            for _d in range(pr_.choice([1, 2, 3])):
+                kids_ = [c_ for c_ in path_[-1].reference.children if c_.reference is not None]
+                if not kids_:
+                    break
+                path_.append(pr_.choice(kids_))
+            d_ = path_[-1].reference
+            tails_ = [[c_, w_] for c_ in d_.cables for w_ in c_.wires] + [[p_, q_] for p_ in d_.ports for q_ in p_.pins]
+            if tails_:
+                path_ += pr_.choice(tails_)
+            if len(path_) >= 3:
+                pre_held.append(HRef.from_sequence(path_))
+                ctx.count("refs_prebuilt_from_sequence")
     # A. netlist root (the five enumerations in a random order: whichever runs first creates the references)
     order = list(Q.items())
     rng.shuffle(order)
@@ -179,7 +199,7 @@ def run_case(ctx, i, rng):
             return
     # B. canonical form of every (sampled) reference
     allocc, inst_paths = all_occ(n)
-    sample = held if len(held) <= 400 else rng.sample(held, 400)
+    sample = (held if len(held) <= 400 else rng.sample(held, 400)) + pre_held
     for h in sample:
         s = seq(h)
         ctx.count("refs_checked")
